@@ -126,6 +126,41 @@ def colliding_negation_names(names):
     return pr
 
 
+def nested_quantifiers(site):
+    """a quantifier nested inside the body of another quantifier (Forall r. Exists l. reachable(r, l), Exists r. Forall l. ...), in a precondition, in the
+    condition of a conditional effect, or in a goal: the quantifiers remover has to expand the inner one inside every copy of the outer one"""
+    pr = Problem(f"nested_quantifiers_{site}")
+    R, L = UserType("Robot"), UserType("Loc")
+    rs, ls = [Object(f"r{i}", R) for i in (1, 2)], [Object(f"l{i}", L) for i in (1, 2)]
+    pr.add_objects(rs + ls)
+    reach, done, mark = Fluent("reachable", BoolType(), r=R, l=L), Fluent("done", BoolType()), Fluent("mark", BoolType())
+    pr.add_fluent(reach, default_initial_value=False)
+    pr.add_fluent(done, default_initial_value=False)
+    pr.add_fluent(mark, default_initial_value=False)
+    pr.set_initial_value(reach(rs[0], ls[0]), True)
+    r, l = Variable("r", R), Variable("l", L)
+    fa_ex = Forall(Exists(reach(r, l), l), r)
+    ex_fa = Exists(Forall(Or(reach(r, l), mark), l), r)
+    move = InstantaneousAction("open", r=R, l=L)
+    move.add_effect(reach(move.parameter("r"), move.parameter("l")), True)
+    pr.add_action(move)
+    fin = InstantaneousAction("finish")
+    if site == "precondition":
+        fin.add_precondition(fa_ex)
+        fin.add_precondition(Not(ex_fa))
+        fin.add_effect(done, True)
+    elif site == "effect_condition":
+        fin.add_effect(done, True, fa_ex)
+        fin.add_effect(mark, True, ex_fa)
+    else:
+        fin.add_effect(done, True)
+    pr.add_action(fin)
+    pr.add_goal(done)
+    if site == "goal":
+        pr.add_goal(fa_ex)
+    return pr
+
+
 def boolean_copy_assignment(src0, goal):
     """a Boolean fluent assigned the value of ANOTHER fluent (not a constant) whose negation a later action or the goal needs: the negative
     conditions remover has to keep the companion of the assigned fluent equal to the negated value"""
@@ -392,6 +427,9 @@ def crafted_cases():
             out.append(("crafted:quantified_variable_named_like_fresh", (CK.USERTYPE_FLUENTS_REMOVING,), quantified_variable_named_like_fresh(vn, m)))
     for names in (("a", "not_a", "a_0"), ("a", "a_0", "not_a"), ("a_0", "not_a", "a"), ("a", "not_a", "not_a_0"), ("not_a", "a")):
         out.append(("crafted:colliding_negation_names", (CK.NEGATIVE_CONDITIONS_REMOVING,), colliding_negation_names(names)))
+    for site in ("precondition", "effect_condition", "goal"):
+        out.append(("crafted:nested_quantifiers", (CK.QUANTIFIERS_REMOVING,), nested_quantifiers(site)))
+    out.append(("crafted:nested_quantifiers+grounding", (CK.QUANTIFIERS_REMOVING, CK.GROUNDING), nested_quantifiers("precondition")))
     for src0 in (True, False):
         for goal in ("neg", "pos"):
             out.append(("crafted:boolean_copy_assignment", (CK.NEGATIVE_CONDITIONS_REMOVING,), boolean_copy_assignment(src0, goal)))
